@@ -178,6 +178,7 @@ use std::mem::ManuallyDrop;
 
 // =============================================================================== C01: Number kernel
 
+// ALSO: C02
 #[kani::proof_for_contract(crate::builtins::number::f64_to_int32)]
 fn c01_f64_to_int32() {
     let x: f64 = kani::any();
@@ -247,6 +248,7 @@ fn c01_number_not() {
 }
 
 // FN: IntegerOrInfinity::from
+// ALSO: C02
 #[kani::proof]
 fn c01_to_integer_or_infinity() {
     let x: f64 = kani::any();
@@ -266,6 +268,7 @@ fn c01_to_integer_or_infinity() {
 
 /// clamp_finite(lo, hi) = min(max(v, lo), hi) with the infinities mapped to the bounds.
 // FN: IntegerOrInfinity::clamp_finite
+// ALSO: C02
 #[kani::proof]
 fn c01_clamp_finite() {
     let which: u8 = kani::any();
